@@ -8,7 +8,9 @@ CFG = {
                   "(C07_array, C07_dlist, C07_slist), which includes: no panic, nothing written to stdout, out-of-range operations "
                   "are the identity (C07_spec_*). The models are tied to the code on every run: every call's result and the bytes "
                   "it wrote to stdout, the observables after every mutator and the array list's whole backing array are compared "
-                  "with the model inside Coq (kind 1) and with the abstract sequence (kind 2).",
+                  "with the model inside Coq (kind 1) and with the abstract sequence (kind 2). Aliasing is judged too: every slice a "
+                  "Values() call returned is kept and read again at the end of the trace (it must still hold the recorded result), and some "
+                  "traces overwrite a returned slice with a never-stored value before the observers run (kind 2 if the list notices).",
     "level_note": "The model is the model of the code with the repairs 0015 (D14), 0017 (D16), 0018 (D17), 0019/0020 (D18) applied. "
                   "Sort is modelled by insertion sort (the code delegates to sort.Sort/pdqsort through bcomparator.Sort; C10): with the "
                   "int comparator the ascending permutation is unique (C07_spec_sort). Element type int only; reflect.DeepEqual is "
